@@ -171,6 +171,81 @@ func genGrammarPred(t *rapid.T, depth int) *gen.Pred {
 
 var rawTemplates = []string{"{{.foo}}", "{{ __line__ }} - {{ .a | upper }}", "plain text", "{{ if eq .level \"error\" }}E{{ else }}-{{ end }}", "", "{{ printf \"%5.2f\" .x }}", "{{ .a }} \"quoted\" `tick`"}
 
+// tmplFuncs is the function table of the template language: name -> argument kinds
+// (s string, i small integer, f float, r regular expression, T time).
+var tmplFuncs = []struct {
+	name string
+	args string
+}{
+	{"ToLower", "s"}, {"ToUpper", "s"}, {"Replace", "sssi"}, {"Trim", "ss"}, {"TrimLeft", "ss"}, {"TrimRight", "ss"},
+	{"TrimPrefix", "ss"}, {"TrimSuffix", "ss"}, {"TrimSpace", "s"}, {"regexReplaceAll", "rss"}, {"regexReplaceAllLiteral", "rss"},
+	{"count", "rs"}, {"urldecode", "s"}, {"urlencode", "s"}, {"bytes", "s"}, {"duration", "s"}, {"duration_seconds", "s"},
+	{"unixEpochMillis", "T"}, {"unixEpochNanos", "T"}, {"toDateInZone", "sss"}, {"unixToTime", "s"}, {"alignLeft", "is"},
+	{"alignRight", "is"}, {"b64enc", "s"}, {"b64dec", "s"}, {"lower", "s"}, {"upper", "s"}, {"title", "s"}, {"trunc", "is"},
+	{"substr", "iis"}, {"contains", "ss"}, {"hasPrefix", "ss"}, {"hasSuffix", "ss"}, {"indent", "is"}, {"nindent", "is"},
+	{"replace", "sss"}, {"repeat", "is"}, {"trim", "s"}, {"trimAll", "ss"}, {"trimSuffix", "ss"}, {"trimPrefix", "ss"},
+	{"int", "s"}, {"float64", "s"}, {"add", "ii"}, {"sub", "ii"}, {"mul", "ii"}, {"div", "ii"}, {"mod", "ii"}, {"addf", "ff"},
+	{"subf", "ff"}, {"mulf", "ff"}, {"divf", "ff"}, {"max", "ii"}, {"min", "ii"}, {"maxf", "ff"}, {"minf", "ff"}, {"ceil", "f"},
+	{"floor", "f"}, {"round", "fi"}, {"fromJson", "s"}, {"date", "sT"}, {"toDate", "ss"}, {"now", ""}, {"unixEpoch", "T"},
+	{"default", "ss"}, {"printf", "ss"}, {"len", "s"}, {"index", "si"}, {"slice", "sii"}, {"nosuchfunc", "s"},
+}
+
+// GenRawTemplate draws a template that calls the functions of the template language with
+// arguments of the right and of the wrong kind (counts stay small: a huge repeat or pad count
+// is a request for a huge string, not a defect).
+func GenRawTemplate(t *rapid.T, label string) string {
+	arg := func(kind byte, i int) string {
+		l := label + "-arg" + string(rune('0'+i))
+		if rapid.IntRange(0, 9).Draw(t, l+"-wrong") == 0 {
+			kind = "sifrT"[rapid.IntRange(0, 4).Draw(t, l+"-wrongkind")]
+		}
+		switch kind {
+		case 'i':
+			return rapid.SampledFrom([]string{"0", "1", "3", "-1", "64", "7", "(len .a)", "(int .val)", "-9223372036854775808"}).Draw(t, l+"-int")
+		case 'f':
+			return rapid.SampledFrom([]string{"0.0", "1.5", "-2.25", "1e300", "(float64 .val)", "0"}).Draw(t, l+"-float")
+		case 'r':
+			return rapid.SampledFrom([]string{`"a+"`, `"(.)"`, `"^$"`, `"("`, `"[a-"`, `"(?P<x>\\d+)"`, `".*"`, "`\\w`", `""`}).Draw(t, l+"-re")
+		case 'T':
+			return rapid.SampledFrom([]string{"__timestamp__", "now", "(unixToTime .ts)", `(toDate "2006-01-02" .a)`}).Draw(t, l+"-time")
+		}
+		return rapid.SampledFrom([]string{".a", ".level", ".nosuch", "__line__", `"x"`, `""`, `"2006-01-02"`, `"%d|%5s"`, `"ü世\\xff"`, "`raw`", "(.a | upper)", `"{\\"k\\":[1,{\\"z\\":null}]}"`, `"%zz"`, `"UTC"`, `"Nowhere/Land"`}).Draw(t, l+"-str")
+	}
+	call := func(label string) string {
+		f := rapid.SampledFrom(tmplFuncs).Draw(t, label+"-fn")
+		out := f.name
+		n := len(f.args)
+		if rapid.IntRange(0, 11).Draw(t, label+"-arity") == 0 {
+			n += rapid.SampledFrom([]int{-1, 1}).Draw(t, label+"-arity-delta")
+		}
+		for i := 0; i < n; i++ {
+			k := byte('s')
+			if i < len(f.args) {
+				k = f.args[i]
+			}
+			out += " " + arg(k, i)
+		}
+		return out
+	}
+	var sb strings.Builder
+	for i, n := 0, rapid.IntRange(1, 3).Draw(t, label+"-parts"); i < n; i++ {
+		l := label + "-p" + string(rune('0'+i))
+		switch rapid.IntRange(0, 6).Draw(t, l+"-kind") {
+		case 0:
+			sb.WriteString(rapid.SampledFrom([]string{"text ", "-", "}} {", "{{/* c */}}", "\\n"}).Draw(t, l+"-lit"))
+		case 1:
+			sb.WriteString("{{ " + call(l) + " | " + call(l+"-pipe") + " }}")
+		case 2:
+			sb.WriteString("{{ if " + call(l) + " }}Y{{ else }}" + "{{ " + call(l+"-else") + " }}{{ end }}")
+		case 3:
+			sb.WriteString("{{ range $i, $e := " + rapid.SampledFrom([]string{"(fromJson .a)", ".", "(fromJson __line__)", `(fromJson "[1,2]")`}).Draw(t, l+"-range") + " }}{{ $e }}{{ end }}")
+		default:
+			sb.WriteString("{{ " + call(l) + " }}")
+		}
+	}
+	return sb.String()
+}
+
 // GenGrammarStage draws any pipeline stage of the grammar.
 func GenGrammarStage(t *rapid.T) gen.Stage {
 	switch rapid.IntRange(0, 15).Draw(t, "gs-kind") {
@@ -208,6 +283,9 @@ func GenGrammarStage(t *rapid.T) gen.Stage {
 	case 10:
 		return gen.Stage{Kind: "decolorize"}
 	case 11:
+		if rapid.Bool().Draw(t, "gs-built-tmpl") {
+			return gen.Stage{Kind: "line_format", RawTmpl: GenRawTemplate(t, "gs-tmpl")}
+		}
 		return gen.Stage{Kind: "line_format", RawTmpl: rapid.SampledFrom(rawTemplates).Draw(t, "gs-tmpl")}
 	case 12:
 		st := gen.Stage{Kind: "label_format"}
@@ -224,7 +302,11 @@ func GenGrammarStage(t *rapid.T) gen.Stage {
 			if rapid.Bool().Draw(t, "gs-lf-rename") {
 				st.Renames = append(st.Renames, gen.Rename{Dst: dst, Src: genIdent(t, "gs-lf-src")})
 			} else {
-				tmpls = append(tmpls, gen.LabelTmpl{Dst: dst, Tmpl: []gen.TmplPart{{Kind: "lit", Text: rapid.SampledFrom(rawTemplates).Draw(t, "gs-lf-tmpl")}}})
+				text := rapid.SampledFrom(rawTemplates).Draw(t, "gs-lf-tmpl")
+				if rapid.Bool().Draw(t, "gs-lf-built-tmpl") {
+					text = GenRawTemplate(t, "gs-lf-tmpl")
+				}
+				tmpls = append(tmpls, gen.LabelTmpl{Dst: dst, Tmpl: []gen.TmplPart{{Kind: "lit", Text: text}}})
 			}
 		}
 		st.Templates = tmpls
